@@ -6,7 +6,8 @@
    Only statements, each closed by [exact] and followed by Print Assumptions. *)
 From PV Require Import Base.Prelude Wire.SeqSet.
 From PV Require Import UidRecent.Model UidRecent.MapLemmas UidRecent.UidProofs
-  UidRecent.RecentInv UidRecent.UidTheorems UidRecent.Witness.
+  UidRecent.RecentInv UidRecent.UidTheorems UidRecent.Witness
+  UidRecent.Maildir UidRecent.MaildirProofs.
 
 Local Open Scope N_scope.
 
@@ -68,7 +69,8 @@ Print Assumptions C04_uidnext_bounds.
 (* RENAME carries counter, log, messages and identity to the new name;
    renaming INBOX leaves a fresh empty INBOX with a new identity. *)
 Theorem C04_rename_carries : forall st s a b ch i bx,
-  full st -> b <> INBOX -> find_box st a = Some (i, bx) -> lookup b (names st) = None ->
+  full st -> b <> INBOX -> find_box st a = Some (i, bx) -> in_tree st b = false ->
+  (forall ca, name_sub a = Some ca -> has_name st ca = false) ->
   let st' := fst (step st (Rename s a b) ch) in
   find_box st' b = Some (i, bx) /\
   (a <> INBOX -> find_box st' a = None) /\
@@ -144,17 +146,93 @@ Theorem C04_witness : outs w_uids =
 Proof. exact w_uids_outs. Qed.
 Print Assumptions C04_witness.
 
-(* open finding C04-F1 (not covered): a connection whose selected name was
-   re-bound to another mailbox (RENAME INBOX by someone else) is reachable;
-   its view still lists UID 101 while the mailbox its commands now resolve to
-   holds a different message under 101.  The model refuses such commands
-   ([OStaleCmd]); the real server answers them from the other mailbox. *)
-Theorem C04_refuted_stale_selection :
-  exists tr s, resolve (run init tr) s = RStale /\
-    snd (step (run init tr) (Fetch s) ch0) = OStaleCmd /\
-    exists sl i b, lookup s (sess (run init tr)) = Some sl /\
-      find_box (run init tr) (s_name sl) = Some (i, b) /\ i <> s_bid sl /\
-      (exists m, In m (b_msgs b) /\ m_uid m = 101 /\ m_mark m = 2) /\
-      In 101 (s_view sl).
-Proof. exact w_stale_reachable. Qed.
-Print Assumptions C04_refuted_stale_selection.
+(* DELETE then CREATE of the same name: the name denotes nothing in between,
+   then a mailbox whose identity differs from every mailbox that ever existed
+   (fresh UIDVALIDITY draw), with an empty log and the base counter: UIDs
+   restart, but under another identity; existing mailbox objects are
+   untouched.  All theorems above are per identity. *)
+Theorem C04_recreate_is_fresh : forall st s s' nm ch ch' i,
+  full st -> nm <> INBOX -> lookup nm (names st) = Some i ->
+  let st1 := fst (step st (Delete s nm) ch) in
+  let st2 := fst (step st1 (Create s' nm) ch') in
+  find_box st1 nm = None /\
+  find_box st2 nm = Some (next_bid st, empty_box (cfg_base st)) /\
+  (forall j b, In (j, b) (boxes st) -> j <> next_bid st /\ lookup j (boxes st2) = lookup j (boxes st)).
+Proof. exact recreate_is_fresh. Qed.
+Print Assumptions C04_recreate_is_fresh.
+
+(* fixed finding C04-F1: the connection whose INBOX was renamed away by
+   someone else is answered NO, then BYE; it is never served the new INBOX *)
+Theorem C04_stale_selection_witness :
+  skipn 3 (outs w_stale) =
+  [ OOk PNone; OAppend 1 [49; 48; 49] PNone; ONo; ONo; OStatus 1 1 1 102 PBye ].
+Proof. exact w_stale_outs. Qed.
+Print Assumptions C04_stale_selection_witness.
+
+(* DELETE/CREATE, backend-read-only mailbox, sequence-number COPY, files
+   adopted by a maildir reset: a concrete execution *)
+Theorem C04_more_witness : outs w_more =
+  [ OOk PNone; OAppend 1 [49; 48; 49; 58; 49; 48; 50] PNone; OOk PNone; OOk PNone;
+    OAppend 2 [49; 48; 49] PNone; OStatus 2 1 1 102 PNone;
+    OOk PNone; ONo; OSelect 2 true 1 1 102;
+    OCopy (Some (0, [49; 48; 49], [49; 48; 49])) (PSync (mkSync 0 None None)); ONo;
+    OOk PNone; OSelect 0 false 3 2 104;
+    OFetch (PSync (mkSync 0 None None))
+           [(101, true, false, 3); (102, true, false, 7); (103, false, true, 8)] ].
+Proof. exact w_more_outs. Qed.
+Print Assumptions C04_more_witness.
+
+(* ------------------------------------------------------------- maildir
+   The maildir folder state (uidlist with its persisted next_uid, files in
+   new/ and cur/) refines the model's mailbox through [abs]; with the label
+   [Adopt] (files without a record are adopted by the next reset) every
+   theorem above holds for the maildir instance [init_cfg 0 false]. *)
+Theorem C04_maildir_inv_uid_reachable : forall (tr : list (op * choice)),
+  Inv_uid (run (init_cfg 0 false) tr).
+Proof. exact (inv_uid_reachable 0 false). Qed.
+Print Assumptions C04_maildir_inv_uid_reachable.
+
+Theorem C04_maildir_uidnext_bounds : forall tr o ch i n,
+  let st := run (init_cfg 0 false) tr in
+  reported_uidnext (snd (step st o ch)) = Some (i, n) ->
+  exists b, lookup i (boxes st) = Some b /\ n = b_max b + 1 /\
+    (forall m, In m (b_msgs b) -> m_uid m < n) /\
+    (forall e, In e (b_log b) -> fst e < n) /\
+    forall tr' b', lookup i (boxes (run (fst (step st o ch)) tr')) = Some b' ->
+      forall e, In e (b_log b') -> In e (b_log b) \/ n <= fst e.
+Proof. exact (uidnext_bounds 0 false). Qed.
+Print Assumptions C04_maildir_uidnext_bounds.
+
+(* an externally delivered file is invisible to IMAP until a reset adopts it *)
+Theorem C04_maildir_external_invisible : forall d f,
+  ~ In (f_key f) (map snd (d_recs d)) -> abs (md_add_file f d) = abs d.
+Proof. exact abs_external. Qed.
+Print Assumptions C04_maildir_external_invisible.
+
+(* writing the file and then the uidlist record is the model's delivery *)
+Theorem C04_maildir_append_refines : forall d f,
+  1 <= d_next d -> ~ In (f_key f) (map f_key (d_files d)) ->
+  ~ In (f_key f) (map snd (d_recs d)) ->
+  abs (md_append f d) = box_add (abs d) (f_new f) (f_deleted f) (f_mark f).
+Proof. exact abs_append. Qed.
+Print Assumptions C04_maildir_append_refines.
+
+(* reset(): every unknown file, in listing order, is one delivery with the
+   next UID (stored recent iff it lies in new/) *)
+Theorem C04_maildir_reset_refines : forall d,
+  1 <= d_next d -> NoDup (map f_key (d_files d)) ->
+  abs (md_reset d) =
+  fold_left (fun b f => box_add b (f_new f) (f_deleted f) (f_mark f)) (unknown d) (abs d).
+Proof. exact abs_reset. Qed.
+Print Assumptions C04_maildir_reset_refines.
+
+Theorem C04_maildir_adopt_is_box_add : forall i rc dl mk st b,
+  lookup i (boxes st) = Some b ->
+  lookup i (boxes (adopt_one i rc dl mk st)) = Some (box_add b rc dl mk).
+Proof. exact adopt_one_is_box_add. Qed.
+Print Assumptions C04_maildir_adopt_is_box_add.
+
+(* UIDNEXT is the persisted counter *)
+Theorem C04_maildir_uidnext_is_counter : forall d, 1 <= d_next d -> d_next d = b_max (abs d) + 1.
+Proof. exact uidnext_is_counter. Qed.
+Print Assumptions C04_maildir_uidnext_is_counter.
